@@ -124,6 +124,7 @@ func (m *FlowMon) OnEvent(c *eng.Ctx, ms eng.MState, ev *eng.Event) eng.MState {
 		}
 		switch ev.Class {
 		case "ctx.Err":
+			chk("C05.R5", "ctx-observation", ev.Recv == nil || ev.Recv == m.Ctx, "the flow consults "+prettyT(ev.Recv)+" instead of the context it was run with: a cancellation of this run can go unnoticed (or another run's cancellation can end this one)")
 			if len(ev.Results) > 0 {
 				s.obs, s.cut = ev.Results[0], false
 			}
@@ -301,7 +302,7 @@ func (m *FlowMon) onReturn(c *eng.Ctx, s flowState, ev *eng.Event, T *eng.Term) 
 			ended = c.Eval(eng.LookupOk(T, s.prevNode)) == eng.TriFalse || c.Eval(eng.LookupOk(inner, s.prevAct)) == eng.TriFalse ||
 				c.IsNil(inner) == eng.TriTrue || c.IsNil(next) == eng.TriTrue
 		}
-		ck("C03.R3", "success-return", ended, "the flow ends although the connection table may hold a non-nil successor for (last node, its action)")
+		ck("C03.R3,C10.R10", "success-return", ended, "the flow ends although the connection table may hold a non-nil successor for (last node, its action)")
 		ck("C03.R3", "success-return", s.n == 0 || s.sawLookup, "the flow ends on a row of the connection table that was read before the last node ran: a connection the node makes while it runs is missed")
 		okVal := val.K == eng.KBox && m.R.Action != nil && types.Identical(val.T, m.R.Action) && val.A[0] == s.prevAct
 		ck("C10.R3,C03.R9", "success-return", okVal, "a finished flow must hand back the action of the last node it ran (boxed as Action), got "+val.Pretty())
